@@ -25,7 +25,7 @@ theorem allocBuf_spec (h : Heap) (bf : Buf) :
 
 /-- `copyBufs` leaves existing buffers alone, only adds buffers, and every new slot shows what the old one shows -/
 theorem copyBufs_vals : ∀ (bs : List (Option Nat)) (as : List BufAct) (h : Heap),
-    (∀ a ∈ as, a ≠ .alias) → (∀ b, some b ∈ bs → b < h.nbuf) →
+    (∀ a ∈ as, a ≠ .alias ∧ a ≠ .garble) → (∀ b, some b ∈ bs → b < h.nbuf) →
     ∀ h' nb ok, copyBufs h bs as = (h', nb, ok) →
       h.nbuf ≤ h'.nbuf ∧ (∀ b, b < h.nbuf → h'.bufs b = h.bufs b) ∧
       (ok = true → bs.length ≤ as.length → nb.map (slotVal h') = bs.map (slotVal h)) := by
@@ -44,7 +44,7 @@ theorem copyBufs_vals : ∀ (bs : List (Option Nat)) (as : List BufAct) (h : Hea
       obtain ⟨rfl, rfl, rfl⟩ := he
       exact ⟨Nat.le_refl _, fun _ _ => rfl, fun _ hl => by simp at hl⟩
     | cons a as =>
-      have hw' : ∀ a' ∈ as, a' ≠ .alias := fun a' ha' => hw a' (List.mem_cons_of_mem _ ha')
+      have hw' : ∀ a' ∈ as, a' ≠ .alias ∧ a' ≠ .garble := fun a' ha' => hw a' (List.mem_cons_of_mem _ ha')
       have hbd' : ∀ b, some b ∈ bs → b < h.nbuf := fun b hb => hbd b (List.mem_cons_of_mem _ hb)
       -- a slot that stays NULL although the original may have an (empty) buffer: `v` = what the original shows
       have skip : slotVal h x = none → consSlot none (copyBufs h bs as) = (h', nb, ok) →
@@ -63,7 +63,8 @@ theorem copyBufs_vals : ∀ (bs : List (Option Nat)) (as : List BufAct) (h : Hea
       cases x with
       | none => exact skip rfl (by simpa [copyBufs] using he)
       | some b =>
-        have ha : a ≠ .alias := hw a List.mem_cons_self
+        have ha : a ≠ .alias := (hw a List.mem_cons_self).1
+        have hg : a ≠ .garble := (hw a List.mem_cons_self).2
         simp only [copyBufs, ha, if_false] at he
         cases hbf : h.bufs b with
         | none =>
@@ -72,7 +73,7 @@ theorem copyBufs_vals : ∀ (bs : List (Option Nat)) (as : List BufAct) (h : Hea
           obtain ⟨f1, f2⟩ := fail_bufs h .useAfterFree
           exact ⟨by rw [f2]; exact Nat.le_refl _, fun _ _ => by rw [f1], fun hk => by cases hk⟩
         | some bf =>
-          simp only [hbf] at he
+          simp only [hbf, hg, if_false] at he
           by_cases hu : a = .trim ∧ bf.used = 0
           · exact skip (by simp [slotVal, hbf, hu.2]) (by simpa [hu] using he)
           · simp only [hu, if_false] at he
@@ -184,7 +185,7 @@ theorem sqfsCopy_view (D : Kind → CopyDesc) (hD : ∀ k, WfDesc (D k)) (n : Na
   obtain ⟨_, hres⟩ := sqfsCopy_bal D hD (n + 1) h U [] [] x hb hxl hxn h' (some c) he
   obtain ⟨hb', hfresh, hsl⟩ := hres
   obtain ⟨hd, hc, _, _, hrefs, hviews⟩ := hb.live x o hox (by simp)
-  obtain ⟨hw1, hw2, hw3, hw4, _, hw6⟩ := hD o.kind
+  obtain ⟨hw1, hw2, hw3, hw4, _, hw6, hw7⟩ := hD o.kind
   have hbl : ∀ b, some b ∈ o.bufs → (h.bufs b).isSome := fun b hbm => hb.buf_live hox (by simp) hbm
   have hbb : ∀ b, some b ∈ o.bufs → b < h.nbuf := fun b hbm => hb.bufBound b (hbl b hbm)
   have hslot : ∀ s, s ∈ o.bufs ++ o.views → ∀ b, s = some b → b < h.nbuf := by
@@ -209,12 +210,12 @@ theorem sqfsCopy_view (D : Kind → CopyDesc) (hD : ∀ k, WfDesc (D k)) (n : Na
       rcases hloops with ⟨hr1, hr2⟩ | ⟨hr1, hr2⟩
       · obtain ⟨hb1, hsA, _, _, _⟩ := copyRefs_bal (sqfsCopy D n) n ih o.refs (D o.kind).refs hb hw4 hrl _ _ _ hr1
         obtain ⟨hsA, _⟩ := hsA rfl
-        obtain ⟨_, _, hv⟩ := copyBufs_vals o.bufs (D o.kind).bufs hA hw2 (fun b hbm => Nat.lt_of_lt_of_le (hbb b hbm) hsA.nbuf) _ _ _ hr2
+        obtain ⟨_, _, hv⟩ := copyBufs_vals o.bufs (D o.kind).bufs hA (fun a ha => ⟨hw2 a ha, hw7 a ha⟩) (fun b hbm => Nat.lt_of_lt_of_le (hbb b hbm) hsA.nbuf) _ _ _ hr2
         rw [hv rfl hs1]
         apply List.map_congr_left
         intro s hs
         exact slotVal_congr s (fun b hsb => hsA.bufsOld b (hbb b (hsb ▸ hs)))
-      · obtain ⟨_, hold, hv⟩ := copyBufs_vals o.bufs (D o.kind).bufs h hw2 hbb _ _ _ hr1
+      · obtain ⟨_, hold, hv⟩ := copyBufs_vals o.bufs (D o.kind).bufs h (fun a ha => ⟨hw2 a ha, hw7 a ha⟩) hbb _ _ _ hr1
         obtain ⟨hb1, hsA, hoA, hnA, hfA, _, _⟩ := copyBufs_bal o.bufs (D o.kind).bufs hb hw2 hbl _ _ _ hr1
         obtain ⟨hb2, hsB, _, _, _⟩ := copyRefs_bal (sqfsCopy D n) n ih o.refs (D o.kind).refs hb1 hw4
           (fun r hr => ⟨by rw [hoA]; exact (hrl r hr).1, (hrl r hr).2⟩) _ _ _ hr2
@@ -386,7 +387,7 @@ theorem sqfsCopy_caps (D : Kind → CopyDesc) (hD : ∀ k, WfDesc (D k)) (n : Na
     ∃ oc, h'.objs c = some oc ∧ oc.bufs.map (slotCap h') = o.bufs.map (slotCap h) := by
   have hxl : (h.objs x).isSome := by simp [hox]
   obtain ⟨hd, hc, _, _, hrefs, hviews⟩ := hb.live x o hox (by simp)
-  obtain ⟨hw1, hw2, hw3, hw4, _, hw6⟩ := hD o.kind
+  obtain ⟨hw1, hw2, hw3, hw4, _, hw6, hw7⟩ := hD o.kind
   have hbl : ∀ b, some b ∈ o.bufs → (h.bufs b).isSome := fun b hbm => hb.buf_live hox (by simp) hbm
   have hbb : ∀ b, some b ∈ o.bufs → b < h.nbuf := fun b hbm => hb.bufBound b (hbl b hbm)
   obtain ⟨hA, hB, nb, nr, htk, hloops, hfin⟩ := sqfsCopy_anatomy D n h h' x c o hb.ok hox he
